@@ -26,7 +26,7 @@ MANIFEST = {
             "changes are inlined wrongly (known finding C07-a, two "
             "confirmed inputs). Other run-time behaviour is NOT decided.",
     "technique": "must-pass-through over a reviewed obligation table + "
-                 "statement-order rule in apply()",
+                 "statement-order rule in apply() + refusal-weakening check against the reviewed guard snapshot",
 }
 TABLE = {
     ("InlineTrans", "validate"): {
